@@ -1,28 +1,52 @@
 ---------------------------- MODULE SlashOrderMC ----------------------------
-(* Enumerates keys over a small alphabet and checks the laws of SlashOrder  *)
-(* in every state.  A state is a triple of keys (a, b, c); Next appends one *)
-(* byte to one of them, so the reachable states are exactly all triples     *)
-(* with Len(a), Len(b) <= MaxLen and Len(c) <= MaxLenC.  With MaxLenC = 0   *)
-(* the states are all pairs (used for the pair laws, the engine contract    *)
-(* and the export of the comparison table).                                 *)
+(* Enumerates keys and checks the laws of SlashOrder in every state.  A      *)
+(* state is a triple of keys (a, b, c); Next appends one *unit* to one of    *)
+(* them, so the reachable states are exactly all triples of keys made of at  *)
+(* most MaxLen (MaxLenC for c) units and at most MaxBytes bytes.  With       *)
+(* MaxLenC = 0 the states are all pairs (pair laws, engine contract, export  *)
+(* of the comparison table).                                                 *)
+(* Two key families:                                                         *)
+(*  - bytes  (Chunks = {}): a unit is one byte of Alphabet - every key up    *)
+(*    to length 3-4 over '/' and its byte neighbours;                        *)
+(*  - chunks (Chunks # {}): a unit is a multi-byte chunk (1, 3, 7, 8, 9      *)
+(*    bytes over two letters, and "/"), so that with few keys the lengths    *)
+(*    8..26 and every position of the first '/' relative to the 8- and       *)
+(*    16-byte boundaries are enumerated (flat long keys against keys with a  *)
+(*    long first span; the shapes a word-at-a-time comparison gets wrong).   *)
+(* The comparison itself is always the byte-level transcription.             *)
 EXTENDS SlashOrder, TLC, Json
 
 CONSTANTS Alphabet,   \* byte codes; must contain 47 ('/') and its neighbours 46 ('.') and 48 ('0')
-          MaxLen, MaxLenC,
+          Chunks,     \* {} or a set of byte sequences (a .cfg says Chunks <- ChunksQ)
+          MaxLen, MaxLenC,   \* units per key
+          MaxBytes,   \* bytes per key
           SepImpl,    \* what kv_pebble.go installs as Separator/Successor: "identity" | "bytewise"
           Export      \* "none" | "table"
 
-VARIABLES a, b, c
-vars == <<a, b, c>>
+VARIABLES a, b, c, na, nb, nc
+vars == <<a, b, c, na, nb, nc>>
+View == <<a, b, c>>      \* chunk family: the same key can be built from different chunkings
 
 ASSUME {46, 47, 48} \subseteq Alphabet /\ Alphabet \subseteq 0..255
 
-Init == a = <<>> /\ b = <<>> /\ c = <<>>
-Next == \E x \in Alphabet :
-          \/ Len(a) < MaxLen  /\ a' = Append(a, x) /\ UNCHANGED <<b, c>>
-          \/ Len(b) < MaxLen  /\ b' = Append(b, x) /\ UNCHANGED <<a, c>>
-          \/ Len(c) < MaxLenC /\ c' = Append(c, x) /\ UNCHANGED <<a, b>>
+Units == IF Chunks = {} THEN {<<x>> : x \in Alphabet} ELSE Chunks
+
+Init == a = <<>> /\ b = <<>> /\ c = <<>> /\ na = 0 /\ nb = 0 /\ nc = 0
+Next == \E x \in Units :
+          \/ na < MaxLen  /\ Len(a) + Len(x) <= MaxBytes /\ a' = a \o x /\ na' = na + 1 /\ UNCHANGED <<b, c, nb, nc>>
+          \/ nb < MaxLen  /\ Len(b) + Len(x) <= MaxBytes /\ b' = b \o x /\ nb' = nb + 1 /\ UNCHANGED <<a, c, na, nc>>
+          \/ nc < MaxLenC /\ Len(c) + Len(x) <= MaxBytes /\ c' = c \o x /\ nc' = nc + 1 /\ UNCHANGED <<a, b, na, nb>>
 Spec == Init /\ [][Next]_vars
+
+\* chunk sets ('a' = 97, 'b' = 98, '/' = 47); the long chunks differ from each other within their first bytes
+NoChunks == {}
+C3 == <<98, 97, 98>>
+C7 == <<97, 98, 97, 98, 97, 98, 97>>
+C8 == <<98, 97, 98, 97, 98, 97, 98, 97>>
+C9 == <<97, 97, 98, 98, 97, 97, 98, 98, 97>>
+ChunksQ == {<<47>>, <<97>>, <<98>>, C3, C7, C8}          \* pairs + table, up to 3 units
+ChunksT == {<<47>>, <<98>>, C7, C8}                      \* triples, up to 3 units
+ChunksL == {<<47>>, <<97>>, C7, C8, C9}                    \* thorough pairs, up to 4 units
 
 Sep(x, y) == IF SepImpl = "bytewise" THEN BytewiseSeparator(x, y) ELSE IdentitySeparator(x, y)
 Succ(x)   == IF SepImpl = "bytewise" THEN BytewiseSuccessor(x) ELSE IdentitySuccessor(x)
